@@ -64,8 +64,10 @@ func createStructDesc(rv reflect.Value) (*structDesc, error) {
 	if sd := sds.Get(abiType); sd != nil {
 		return sd, nil
 	}
+	buildCached, buildLinked = buildCached[:0], buildLinked[:0]
 	sd, err := newStructDescAndPrefetch(rt)
 	if err != nil {
+		rollbackBuild()
 		return nil, err
 	}
 	sds.Set(abiType, sd)
@@ -77,6 +79,23 @@ func createStructDesc(rv reflect.Value) (*structDesc, error) {
 
 var prefetchStructDescCache = map[reflect.Type]*structDesc{}
 
+// cache entries added and type nodes linked by the build in progress (guarded by sdsmu).
+// A failed build is rolled back, otherwise nested descriptors that were completed against
+// a half-built parent would make a later call accept the type.
+var (
+	buildCached []reflect.Type
+	buildLinked []*tType
+)
+
+func rollbackBuild() {
+	for _, t := range buildCached {
+		delete(prefetchStructDescCache, t)
+	}
+	for _, t := range buildLinked {
+		t.Sd = nil
+	}
+}
+
 func newStructDescAndPrefetch(t reflect.Type) (*structDesc, error) {
 	if sd := prefetchStructDescCache[t]; sd != nil {
 		return sd, nil
@@ -86,6 +105,7 @@ func newStructDescAndPrefetch(t reflect.Type) (*structDesc, error) {
 		return nil, err
 	}
 	prefetchStructDescCache[t] = sd
+	buildCached = append(buildCached, t)
 	if err := prefetchSubStructDesc(sd); err != nil {
 		delete(prefetchStructDescCache, t)
 		return nil, err
@@ -125,6 +145,7 @@ func fetchStructDesc(t *tType) error {
 		return err
 	}
 	t.Sd = sd
+	buildLinked = append(buildLinked, t)
 	return nil
 }
 
